@@ -307,7 +307,7 @@ func c26Close(st *c26State, nm string) (vig bool, closed bool) {
 	select {
 	case v := <-done:
 		return v, true
-	case <-time.After(60 * time.Second):
+	case <-time.After(HxScale(60 * time.Second)):
 		return false, false
 	}
 }
@@ -329,7 +329,7 @@ func c26Flush(st *c26State, names map[string]bool) {
 		}()
 		select {
 		case <-done:
-		case <-time.After(60 * time.Second):
+		case <-time.After(HxScale(60 * time.Second)):
 		}
 	}
 }
@@ -381,7 +381,7 @@ func c26StopRig(st *c26State) string {
 	res := "ok"
 	select {
 	case <-done:
-	case <-time.After(60 * time.Second):
+	case <-time.After(HxScale(60 * time.Second)):
 		res = "hang"
 	}
 	lock := 0
@@ -485,7 +485,7 @@ func c26Decode(rpc c26Rpc, mode, hx string) (proto.Message, error) {
 
 // c26Call invokes the handler and classifies what the caller sees.
 func c26Call(st *c26State, rpc c26Rpc, msg proto.Message) (class string, recovered int64) {
-	return c26CallT(st, rpc, msg, c26CallTimeout, c26CallGrace)
+	return c26CallT(st, rpc, msg, HxScale(c26CallTimeout), HxScale(c26CallGrace))
 }
 
 // c26CallT: the client's context ends after `timeout` (as a client deadline does); a handler that is not back `grace`
@@ -584,7 +584,7 @@ func c26LockContended(st *c26State, rpc c26Rpc, req *hydrapb.LockRequest) (strin
 	if err != nil || hold == nil {
 		return "rig-error:holder-lock-failed", 0
 	}
-	class, rec := c26CallT(st, rpc, req, 400*time.Millisecond, 5*time.Second)
+	class, rec := c26CallT(st, rpc, req, 400*time.Millisecond, HxScale(5*time.Second))
 	_, _ = st.rig.GW.Unlock(context.Background(), &hydrapb.UnlockRequest{Key: req.GetKey(), LockID: hold.GetLockID()})
 	if class == "resp" {
 		// granted although the key was held: exclusivity is C14's subject; give it back and report what was seen
@@ -902,7 +902,7 @@ func c26Child(line string) string {
 	go func() { done <- cmd.Wait() }()
 	select {
 	case err = <-done:
-	case <-time.After(240 * time.Second):
+	case <-time.After(HxScale(240 * time.Second)):
 		_ = cmd.Process.Kill()
 		return "panic p=0 lock=0 vig=0 store=same close=hang"
 	}
@@ -1063,7 +1063,7 @@ type c26Mut struct {
 type c26Op struct {
 	path  []int
 	label string
-	kind  string // "", "enum", "nilmsg", "emptymsg", "oversize": always run in the quick tier
+	kind  string // "", "enum", "nilmsg", "emptymsg", "oversize", "negint": always run in the quick tier
 	f     func(m protoreflect.Message)
 }
 
@@ -1239,6 +1239,12 @@ func c26Mutations(base proto.Message, rng *rand.Rand, doubles int) []c26Mut {
 						set(protoreflect.ValueOfString(nm))
 					}
 					set(protoreflect.ValueOfString("c26/seed/" + strings.Repeat("n", 300)))
+					// three well-formed parts, longer than the V2 file header's 16-bit name length can say
+					curKind = "oversize"
+					set(protoreflect.ValueOfString("c26/seed/" + strings.Repeat("n", 65536-9)))   // 65535 bytes: the longest storable name
+					set(protoreflect.ValueOfString("c26/seed/" + strings.Repeat("n", 65536-8)))   // 65536 bytes
+					set(protoreflect.ValueOfString("c26/seed/" + strings.Repeat("n", 70000)))
+					curKind = ""
 				} else {
 					for _, v := range []string{"", "nokey", "s1", "sl", "by"} {
 						set(protoreflect.ValueOfString(v))
@@ -1263,13 +1269,23 @@ func c26Mutations(base proto.Message, rng *rand.Rand, doubles int) []c26Mut {
 			case fd.Kind() == protoreflect.BoolKind:
 				set(protoreflect.ValueOfBool(!m.Get(fd).Bool()))
 			case fd.Kind() == protoreflect.Int32Kind || fd.Kind() == protoreflect.Sint32Kind:
-				for _, v := range []int32{0, 1, -1, 2147483647, -2147483648} {
+				for _, v := range []int32{0, 1, 2147483647} {
 					set(protoreflect.ValueOfInt32(v))
 				}
+				curKind = "negint" // negative counts / offsets (Limit, From, HowMany, MaxResults …): in every quick run
+				for _, v := range []int32{-1, -2147483648} {
+					set(protoreflect.ValueOfInt32(v))
+				}
+				curKind = ""
 			case fd.Kind() == protoreflect.Int64Kind:
-				for _, v := range []int64{0, 1, -1, 9223372036854775807} {
+				for _, v := range []int64{0, 1, 9223372036854775807} {
 					set(protoreflect.ValueOfInt64(v))
 				}
+				curKind = "negint"
+				for _, v := range []int64{-1, -9223372036854775808} {
+					set(protoreflect.ValueOfInt64(v))
+				}
+				curKind = ""
 			case fd.Kind() == protoreflect.Uint32Kind:
 				for _, v := range []uint32{0, 1, 4294967295} {
 					set(protoreflect.ValueOfUint32(v))
@@ -1513,8 +1529,8 @@ func c26EntryShape(m protoreflect.Message, mode string) string {
 	if fd := get("From"); fd != nil && (fd.Kind() == protoreflect.Int32Kind || fd.Kind() == protoreflect.Int64Kind) {
 		fn = m.Get(fd).Int() < 0
 	}
-	return fmt.Sprintf("p%d,ne%s,ep%s,x%s,k%s,kv%s,kb%s,fn%s,iz%s,oe%s,mn%s,pe%s,cap%s,lk%s,li%s,t%s", len(parts), c26B(nm == ""), c26B(ep), c26B(exist), keys,
-		c26B(kv), c26B(kb), c26B(fn), c26B(iz), c26B(oe), c26B(mn), c26B(pe), cp, c26B(lk), c26B(li), c26B(!c26GenTel))
+	return fmt.Sprintf("p%d,ne%s,ep%s,x%s,k%s,kv%s,kb%s,fn%s,iz%s,oe%s,mn%s,pe%s,cap%s,lk%s,li%s,t%s,nl%s", len(parts), c26B(nm == ""), c26B(ep), c26B(exist), keys,
+		c26B(kv), c26B(kb), c26B(fn), c26B(iz), c26B(oe), c26B(mn), c26B(pe), cp, c26B(lk), c26B(li), c26B(!c26GenTel), c26B(len(nm) > 65535))
 }
 
 func c26Shape(msg proto.Message, mode string) string {
